@@ -114,7 +114,7 @@ Lemma do_send_core e w x w' :
                    end
   | Some y => Core w'
               /\ (st w' = Closed
-                  \/ (y = XOther /\ st w' = st w
+                  \/ ((y = XOther \/ y = XInvalidCode) /\ st w' = st w
                       /\ exists m, mon_run (MConn false) (trace w') = Some m
                           /\ match e with
                              | EClose _ _ => closedish m = true
